@@ -25,6 +25,11 @@ DIRECTED = [
     # the genuine accept of the first connection replayed on the second one (its session key belongs to the first connection's hash)
     ('replayed-accept', 1, [('Accept', 0, 'valid', 0), ('Ready', 1, '', 0), ('Drop', 0, '', 0), ('Call', 0, 'GetTx', 1), ('Accept', 0, 'replay', 0)]),
     ('replayed-accept-control', 2, [('Call', 0, 'GetTx', 1), ('Accept', 0, 'valid', 0), ('Drop', 0, '', 0), ('Call', 1, 'SendTx', 2), ('Accept', 0, 'replay', 0)]),
+    # subscriptions are written at once, ahead of requests queued for the handshake, on every connection state
+    ('subscriptions', 1, [('Subscribe', 0, 'subscribe_push_data', 0), ('Call', 0, 'GetTx', 1), ('Subscribe', 0, 'subscribe_tx', 0), ('Accept', 0, 'valid', 0),
+                          ('Subscribe', 0, 'subscribe_outputs', 0), ('Subscribe', 0, 'subscribe_headers', 0), ('Ready', 1, '', 0), ('Subscribe', 0, 'subscribe_contracts', 0),
+                          ('Call', 1, 'GetHeader', 2), ('Subscribe', 0, 'unsubscribe_push_data', 0), ('Subscribe', 0, 'unsubscribe_tx', 0), ('Drop', 0, '', 0),
+                          ('Subscribe', 0, 'unsubscribe_outputs', 0), ('Subscribe', 0, 'unsubscribe_headers', 0), ('Subscribe', 0, 'unsubscribe_contracts', 0)]),
     ('accepted-queued-counts', 1, [('Accept', 0, 'valid', 0), ('Drop', 0, '', 0), ('Call', 0, 'GetTx', 1), ('Accept', 0, 'counts', 0)]),
     # every kind answered in reverse order of issue, then answered again (late duplicates)
     ('all-kinds-reverse', 1, [('Accept', 0, 'valid', 0), ('Ready', 1, '', 0), ('Call', 0, 'GetTx', 1), ('Call', 1, 'GetHeader', 1), ('Call', 2, 'GetHeaders', 1),
